@@ -83,6 +83,8 @@ type cliCall struct {
 	// alignment (how many lines the first alignment of a two-alignment input accounts for)
 	multiOK bool
 	side    []sideFile
+	// queryMulti: for a query command that loops over its input, the part of its output that belongs to the second alignment
+	queryMulti func(stdout string) (string, bool)
 	// outAlphabet: alphabet of what the command prints when it is not the receiver's (0 = the receiver's)
 	outAlphabet int
 	// okOnly: the command works on every sequence and stops at the first failing one: a failure says nothing about
@@ -445,6 +447,40 @@ func (c *cliFront) plan(h *heapRun, o *obj, st Step) (*cliCall, string) {
 		argv := []string{"stats", "mutations", "--ref-sequence=" + names[refi]}
 		if st.Op == "ListMutRef" {
 			argv = []string{"stats", "mutations", "list", "--ref-sequence=" + names[refi]}
+		}
+		if st.Op == "NumMutRef" && (i+refi+o.sb.NbSequences())%2 == 0 {
+			// the other command that prints this number: the "mutref" column of the per-sequence table
+			return &cliCall{argv: []string{"stats", "--per-sequences", "--ref-sequence=" + names[refi]}, query: true, okOnly: true,
+				queryMulti: func(stdout string) (string, bool) {
+					k := strings.LastIndex(stdout, "sequence\tgaps")
+					if k <= 0 {
+						return "", false
+					}
+					return stdout[k:], true
+				},
+				ret: func(stdout, stderr string, ret map[string]interface{}) bool {
+					lines := strings.Split(strings.TrimRight(stdout, "\n"), "\n")
+					head := strings.Split(lines[0], "\t")
+					col := -1
+					for k, hname := range head {
+						if hname == "mutref" {
+							col = k
+						}
+					}
+					if col < 0 || len(lines) != len(names)+1 {
+						return false
+					}
+					f := strings.Split(lines[i+1], "\t")
+					if len(f) <= col || f[0] != names[i] {
+						return false
+					}
+					v, err := strconv.Atoi(f[col])
+					if err != nil {
+						return false
+					}
+					ret["v"] = v
+					return true
+				}}, ""
 		}
 		return &cliCall{argv: argv, query: true, okOnly: true, ret: func(stdout, stderr string, ret map[string]interface{}) bool {
 			for _, l := range strings.Split(stdout, "\n") {
@@ -1084,13 +1120,38 @@ func (h *heapRun) cliStep(env *Env, c *cliFront, id string, i int, st Step) {
 	argv := append(append([]string{}, call.argv...), "--alphabet", alpha)
 	// one time in three (when the command loops over its input) the receiver comes second in a two-alignment Phylip input
 	var decoy align.Alignment
-	if call.multiOK && o.al != nil && o.al.Length() >= 1 && (hs.Sum32()/uint32(c.every))%3 == 1 {
+	if (call.multiOK || call.queryMulti != nil) && o.al != nil && o.al.Length() >= 1 && (hs.Sum32()/uint32(c.every))%3 == 1 {
 		decoy = decoyOf(o.al)
+		parseAs := o.al.Alphabet()
+		if (hs.Sum32()/uint32(c.every)/3)%2 == 1 && call.queryMulti == nil {
+			// the other flavour: a first alignment of the OTHER alphabet, alphabets left to automatic detection (each
+			// alignment of a file is typed on its own)
+			decoy = align.NewAlign(align.AMINOACIDS)
+			rows := [][2]string{{"d1", "MKVLWEF"}, {"d2", "MKV-WEF"}, {"d3", "MRVLWQF"}}
+			if o.al.Alphabet() == align.AMINOACIDS {
+				decoy = align.NewAlign(align.NUCLEOTIDS)
+				rows = [][2]string{{"d1", "ACGTNAC"}, {"d2", "AC-TNAC"}, {"d3", "ATGTCAC"}}
+			}
+			for _, r := range rows {
+				decoy.AddSequenceChar(r[0], []byte(r[1]), "")
+			}
+			parseAs = align.BOTH
+		}
 		stream := phylip.WriteAlignment(decoy, false, false, false) + phylip.WriteAlignment(o.al, false, false, false)
-		back, good := phylipAll(stream, o.al.Alphabet())
-		if good && len(back) == 2 && sameAlign(back[0], decoy) && sameAlign(back[1], o.al) {
+		// (the stream is not read back with the library's Phylip parser: a defect of that parser would then hide itself)
+		plain := true
+		o.al.IterateChar(func(name string, sq []uint8) bool {
+			if name == "" || strings.ContainsAny(name, " \t\r\n") || !printable(sq) {
+				plain = false
+			}
+			return false
+		})
+		if plain && (parseAs != align.BOTH || o.sb.DetectAlphabet() == o.sb.Alphabet()) {
 			in = []byte(stream)
 			argv = append(argv, "-p")
+			if parseAs == align.BOTH {
+				argv = append(append([]string{}, call.argv...), "--alphabet", "auto", "-p")
+			}
 		} else {
 			decoy = nil
 		}
@@ -1113,9 +1174,29 @@ func (h *heapRun) cliStep(env *Env, c *cliFront, id string, i int, st Step) {
 	if decoy != nil {
 		// only the receiver's share of the outputs is judged; a failure cannot be attributed to either alignment
 		if err != nil {
+			// whose failure is it?  The first alignment alone is given to the same command: if that succeeds, the failure
+			// belongs to the receiver's turn and is logged as such; otherwise nothing can be said
+			alone := exec.Command(c.bin, argv...)
+			alone.Dir = c.dir
+			alone.Stdin = strings.NewReader(phylip.WriteAlignment(decoy, false, false, false))
+			if alone.Run() != nil {
+				c.skipped["multi"]++
+				return
+			}
+			ev.A["multi"] = true
+			c.multi++
+		}
+	}
+	if decoy != nil && err == nil && call.queryMulti != nil {
+		part, good := call.queryMulti(outText)
+		if !good {
 			c.skipped["multi"]++
 			return
 		}
+		outText = part
+		ev.A["multi"] = true
+		c.multi++
+	} else if decoy != nil && err == nil {
 		outs, good := phylipAll(outText, align.BOTH)
 		if !good || len(outs) != 2 {
 			c.skipped["multi"]++
